@@ -134,6 +134,7 @@ type Ctx struct {
 	Replay  *Violation // non-nil in replay mode
 	Verbose bool
 	dl      time.Time
+	known   map[string]bool // signatures listed in known_findings.txt: recorded, but the search goes on
 }
 
 // Violated reports whether this job has already recorded a violation.
@@ -267,7 +268,7 @@ func (c *Ctx) exploreBase(sc Scenario, base int) {
 			}
 		}
 		c.AddViolation(Violation{Tier: c.Tier, Sig: f.Sig, Job: c.Job, Scenario: sc.Name, Detail: f.Detail, Prefix: full, Base: base})
-		return res, true
+		return res, !c.known[f.Sig]
 	}
 	if c.Replay != nil {
 		e.Only = c.Replay.Prefix
@@ -317,7 +318,10 @@ func verifDir() string {
 }
 
 // Main is called from the harness's TestVerif.
+var currentID string
+
 func Main(t *testing.T, h Harness) {
+	currentID = h.ID
 	tr := tier()
 	jobs := h.Jobs(tr)
 	budget := h.BudgetQuick
@@ -345,7 +349,10 @@ func Main(t *testing.T, h Harness) {
 
 func runJob(t *testing.T, j Job, tr string, dl time.Time, rp *Violation) (res *Res) {
 	res = &Res{}
-	c := &Ctx{Res: res, T: t, Tier: tr, Job: j.Name, dl: dl, Replay: rp, Verbose: rp != nil}
+	c := &Ctx{Res: res, T: t, Tier: tr, Job: j.Name, dl: dl, Replay: rp, Verbose: rp != nil, known: map[string]bool{}}
+	for _, f := range loadFindings(currentID) {
+		c.known[f.sig] = true
+	}
 	defer func() {
 		if r := recover(); r != nil {
 			res.Infra = append(res.Infra, fmt.Sprintf("HARNESS-PANIC job %s: %v", j.Name, r))
